@@ -167,7 +167,8 @@ func ParseUid(s string) Uid {
 // ParseUid32 parses base32-encoded string into Uid.
 func ParseUid32(s string) Uid {
 	var uid Uid
-	if data, err := base32.StdEncoding.WithPadding(base32.NoPadding).DecodeString(s); err == nil {
+	// String32 produces lower case, the standard alphabet is upper case.
+	if data, err := base32.StdEncoding.WithPadding(base32.NoPadding).DecodeString(strings.ToUpper(s)); err == nil {
 		uid.UnmarshalBinary(data)
 	}
 	return uid
